@@ -25,6 +25,9 @@ def generate(R, tier):
         direction = R.choice(["request", "response"])
         minor = R.choice([0, 1, 1])
         pool = R.sample(H.NAMES, R.randint(3, 8))
+        if R.random() < 0.08:
+            # header names beyond ASCII (sent as UTF-8): names are bytes, only A-Z / a-z fold - "\u00dc-Tag" is not "\u00fc-tag", U+212A is not "k"
+            pool = pool + R.sample(H.NONASCII_NAMES + ["X-\u00c4rger", "\u212aeep-Alive", "Keep-Alive"], 2)
         hs = H.rand_headers(R, pool)
         if R.random() < 0.5:
             hs.insert(R.randint(0, len(hs)), ["User-Agent" if direction == "request" else "Server", R.choice(["Mozilla/5.0 Firefox/10.0", "curl/7.81", "", "", " ", "Apache/2.2", "nginx/1.2 (Ubuntu)", "CURL/7.81", "APACHE", "mozilla/5.0 firefox/10.0"])])
